@@ -29,7 +29,10 @@ class History:
         self.act = rng.choice([0, 3, 1000])
         self.limit = rng.choice([2, 3, 5, 8]) if limit is None else limit
         self.gen = Gen(rng, self.act)
-        self.daemon = SimDaemon(self.gen, rng)
+        # a slow daemon now and then: a mempool refresh then spans the arrival and indexing of blocks
+        lat, lat_raw = rng.choice([((0, 0, 0.01, 0.05), None), ((0, 0, 0.01, 0.05), None),
+                                   ((0, 0.05, 0.5, 2.0), None), ((0, 0, 0.01, 0.05), (0.5, 4, 8))])
+        self.daemon = SimDaemon(self.gen, rng, latency=lat, latency_raw=lat_raw)
         self.daemon.extend(rng.randrange(4, 9), max_txs=3)
         self.world = World(self.daemon, self.act, self.limit, Scheduler(rng, job_bias=rng.choice([0.2, 0.5, 0.8])))
         self.events = []          # readable log of what the environment and clients did
@@ -99,7 +102,16 @@ class History:
     def random_env_action(self):
         rng, d = self.rng, self.daemon
         r = rng.random()
-        if r < 0.3:
+        if r < 0.08:
+            # new mempool transactions and a new block at the same instant (the refresh that picks the
+            # transactions up is still in flight when the block is indexed and reported)
+            added = d.mp_add(rng.choice([1, 2]), prefer=None)
+            if rng.random() < 0.5:
+                self.world.advance_time(rng.choice([0.01, 0.3, 1, 5, 5.5, 6]))
+            d.extend(1, mine_from_pool=rng.choice([0, 0, 0.5]))
+            self.res.bump('env_burst_mempool_and_block')
+            self.log(f'daemon mempool +{len(added)} and extend 1 -> {d.tip.height}')
+        elif r < 0.3:
             n = rng.choice([1, 1, 2, 3])
             d.extend(n, mine_from_pool=rng.choice([0, 0.5, 1.0]))
             self.res.bump('env_extend')
@@ -490,6 +502,62 @@ def scenario_header_cache_race(res, seed, variant):
     return fails, h
 
 
+def scenario_refresh_spans_block(res, seed, variant):
+    """Corpus scenario: a mempool refresh that began at height h is still fetching its new
+    transactions (slow daemon) when block h+1 is indexed and reported; it then hands its touched set
+    over for height h.  Every subscribed script hash it touched must still be notified (C20's merge
+    rule, C07): judged like every history at quiescence."""
+    h = History(res, seed, 30_000 + variant, 'quick', {'converge'}, limit=8)
+    w, d = h.world, h.daemon
+    d.latency, d.latency_raw = (0, 0.01), None
+    fails = []
+    try:
+        w.build()
+        w.start()
+        w.run_until(lambda: w.serving)
+        for _ in range(2):
+            s = w.new_session()
+            wrap_transport(s, w)
+        for si in range(2):
+            for script in SCRIPTS:
+                h.subscribe(si, script)
+        w.settle(2)
+        fetching = []
+        orig = d.getrawtransactions
+
+        async def slow(hex_hashes, replace_errs=True):
+            fetching.append(True)
+            return await orig(hex_hashes, replace_errs)
+        d.getrawtransactions = slow
+        w.notifications.raw_transactions = slow
+        d.latency_raw = (9,)
+        added = d.mp_add(2 + variant, prefer=None)
+        h.log(f'daemon mempool +{len(added)} (slow fetch)')
+        for _ in range(2000):
+            w.run(asyncio.sleep(0.01))
+            if fetching:
+                break
+        if not fetching:
+            return [('harness', 'the refresh never fetched the new transactions')], h
+        d.extend(1, mine_from_pool=0)
+        h.log(f'daemon extend 1 -> {d.tip.height} while the refresh at the previous height is fetching')
+        d.latency_raw = None
+        for _ in range(10):
+            w.settle(2)
+            if w.quiescent():
+                break
+        res.bump('refresh_spans_block_scenarios')
+        h.judge('refresh-spans-block')
+        fails = h.fails
+    finally:
+        try:
+            w.stop()
+        except Exception as e:   # noqa
+            fails.append(('harness', f'stop failed: {e!r}'))
+        w.destroy()
+    return fails, h
+
+
 def scenario_tx_cache_race(res, seed, variant):
     """Corpus scenario: a transaction-merkle request for a block of >= 200 transactions (the
     MerkleCache path of `_merkle_branch`) whose tx-hash read from the DB is in flight while a
@@ -575,11 +643,16 @@ def _run(tier, seed, want, name):
                 'under a seeded virtual-time scheduler (worker-thread latency, daemon latency); judged at quiescence after '
                 'every phase against expectations computed from the daemon only; non-trivial = the history contains a '
                 'reorg or a mempool change and at least one judged subscription/query/proof')
-    n = {'quick': 80, 'thorough': 800}[tier]
+    n = {'quick': 300, 'thorough': 3000}[tier]
     if 'limits' in want:
         n = {'quick': 150, 'thorough': 1500}[tier]
+    scenarios = []
     if 'proofs' in want:
-        for scen, fn in (('header_cache_race', scenario_header_cache_race), ('tx_cache_race', scenario_tx_cache_race)):
+        scenarios += [('header_cache_race', scenario_header_cache_race), ('tx_cache_race', scenario_tx_cache_race)]
+    if 'converge' in want:
+        scenarios += [('refresh_spans_block', scenario_refresh_spans_block)]
+    if scenarios:
+        for scen, fn in scenarios:
             for variant in (0, 1):
                 fails, h = fn(res, seed, variant)
                 res.note_case(f'{scen} {variant}', True)
@@ -631,7 +704,8 @@ def replay(case):
     want = set(case['want']) if case.get('want') else {'converge', 'queries', 'proofs'}
     res = SuiteResult('system')
     if case.get('scenario'):
-        fn = {'header_cache_race': scenario_header_cache_race, 'tx_cache_race': scenario_tx_cache_race}[case['scenario'][0]]
+        fn = {'header_cache_race': scenario_header_cache_race, 'tx_cache_race': scenario_tx_cache_race,
+              'refresh_spans_block': scenario_refresh_spans_block}[case['scenario'][0]]
         fails, _h = fn(res, case['seed'], case['scenario'][1])
         return [f'{c}: {d}' for c, d in fails if c != 'harness']
     h = History(res, case['seed'], case['history'], 'quick', want)
